@@ -8,6 +8,7 @@
 -/
 import BioCantor.Proofs.LiftMain
 import BioCantor.Proofs.LiftRelocate
+set_option autoImplicit false   -- an unresolved name in a statement must be an error, never a bound variable
 namespace BioCantor.Props.C04
 open BioCantor BioCantor.Spec BioCantor.Model BioCantor.Proofs
 
